@@ -22,9 +22,9 @@ def main():
   os.chdir(HERE)
   try:
     mod = importlib.import_module('contracts.' + a.prop.lower())
-  except ImportError:
+  except Exception:         # (ImportError, or a defect of the contract files themselves)
     traceback.print_exc()
-    print("CHECKER-ERROR: no contracts for %s" % a.prop)
+    print("CHECKER-ERROR: contracts for %s cannot be loaded" % a.prop)
     return 3
   if a.replay:
     with open(a.replay) as f:
@@ -45,4 +45,15 @@ def main():
 
 
 if __name__ == '__main__':
-  sys.exit(main())
+  # exit 1 is reserved for a reported violation: anything that goes wrong in the checker itself is 3
+  try:
+    rc = main()
+  except SystemExit as e:
+    rc = e.code if isinstance(e.code, int) else 3
+    if rc == 1:
+      rc = 3
+  except BaseException:
+    traceback.print_exc()
+    print("CHECKER-ERROR: crash")
+    rc = 3
+  sys.exit(rc)
